@@ -166,26 +166,28 @@ class Grid:
 
         """
         center = np.asarray(center)
-        if center.shape != self._points.shape[1:]:
+        # use the public points: subclasses may store them differently (e.g. relative to a centre)
+        points = self.points
+        if center.shape != points.shape[1:]:
             raise ValueError(
                 "Argument center has the wrong shape \n"
-                f"center.shape: {center.shape}, points.shape: {self._points.shape}"
+                f"center.shape: {center.shape}, points.shape: {points.shape}"
             )
         if radius < 0:
             raise ValueError(f"Negative radius: {radius}")
         if not (np.isfinite(radius) or radius == np.inf):
             raise ValueError(f"Invalid radius: {radius}")
         if radius == np.inf:
-            return LocalGrid(self._points, self._weights, center, np.arange(self.size))
+            return LocalGrid(points, self._weights, center, np.arange(self.size))
         else:
             # When points.ndim == 1, we have to reshape a few things to
             # make the input compatible with cKDTree
-            _points = self._points.reshape(self.size, -1)
+            _points = points.reshape(self.size, -1)
             _center = np.array([center]) if center.ndim == 0 else center
             if self._kdtree is None:
                 self._kdtree = cKDTree(_points)
             indices = np.array(self._kdtree.query_ball_point(_center, radius, p=2.0), dtype=int)
-            return LocalGrid(self._points[indices], self._weights[indices], center, indices)
+            return LocalGrid(points[indices], self._weights[indices], center, indices)
 
     def moments(
         self,
